@@ -20,10 +20,12 @@ import (
 	"encoding/pem"
 	"fmt"
 	"math/big"
+	"net"
 	"os"
 	"path/filepath"
 	"reflect"
 	"sort"
+	"strconv"
 	"strings"
 	"sync"
 	"time"
@@ -154,59 +156,96 @@ func (cx *c13Cx) Close() { os.RemoveAll(cx.Dir) }
 
 func (cx *c13Cx) f(name string) string { return filepath.Join(cx.Dir, name) }
 
-// Ports handed out for the current case: the kernel may return the same ephemeral port twice once the probing
-// socket is closed, which would make a configuration collide with itself.
+// Port allocation. Kernel-assigned ("port 0") ports come from the ephemeral range (32768-60999 here), which every
+// other process on the machine - including the other shards of this check - draws from all the time: a port that a
+// Core releases for a few milliseconds while it recreates a server would regularly be handed to somebody else, and
+// the reload would fail for reasons that have nothing to do with mediamtx. C13 therefore takes its ports from
+// 10240-32000 (outside the ephemeral range, above the fixed ports of the upstream tests), walks through that range
+// with a per-process cursor (start = f(shard, pid)) and probes every candidate by binding it.
+const (
+	c13PortLo = 10240
+	c13PortHi = 32000
+)
+
 var (
-	c13PortMu  sync.Mutex
-	c13UsedTCP = map[int]bool{}
-	c13UsedUDP = map[int]bool{}
+	c13PortMu     sync.Mutex
+	c13PortCursor int
+	c13UsedPorts  = map[int]bool{} // handed out for the current case (TCP and UDP share the numbering)
 )
 
 func c13ResetPorts() {
 	c13PortMu.Lock()
-	c13UsedTCP, c13UsedUDP = map[int]bool{}, map[int]bool{}
+	c13UsedPorts = map[int]bool{}
 	c13PortMu.Unlock()
+}
+
+func c13ProbeTCP(p int) bool {
+	ln, err := net.Listen("tcp", fmt.Sprintf("127.0.0.1:%d", p))
+	if err != nil {
+		return false
+	}
+	ln.Close()
+	return true
+}
+
+func c13ProbeUDP(p int) bool {
+	for _, ip := range []net.IP{net.IPv4(127, 0, 0, 1), net.IPv4(127, 0, 0, 2)} {
+		c, err := net.ListenUDP("udp", &net.UDPAddr{IP: ip, Port: p})
+		if err != nil {
+			return false
+		}
+		c.Close()
+	}
+	return true
+}
+
+// c13NextPort returns the next port of the private range for which ok(port) holds (caller holds c13PortMu).
+func c13NextPort(ok func(p int) bool) int {
+	if c13PortCursor == 0 {
+		shard, _ := strconv.Atoi(os.Getenv("VERIF_SHARD"))
+		c13PortCursor = c13PortLo + (shard*1361+os.Getpid()*97)%(c13PortHi-c13PortLo)
+	}
+	for i := 0; i < 2*(c13PortHi-c13PortLo); i++ {
+		p := c13PortCursor
+		c13PortCursor++
+		if c13PortCursor >= c13PortHi {
+			c13PortCursor = c13PortLo
+		}
+		if !c13UsedPorts[p] && ok(p) {
+			return p
+		}
+	}
+	panic("c13: no free port in the private range")
 }
 
 func c13TCP() string {
 	c13PortMu.Lock()
 	defer c13PortMu.Unlock()
-	for {
-		p := vcFreeTCPPort()
-		if !c13UsedTCP[p] {
-			c13UsedTCP[p] = true
-			return fmt.Sprintf("127.0.0.1:%d", p)
-		}
-	}
-}
-
-func c13UDPPort() int {
-	for {
-		p := vcFreeUDPPort()
-		if !c13UsedUDP[p] {
-			c13UsedUDP[p] = true
-			return p
-		}
-	}
+	p := c13NextPort(c13ProbeTCP)
+	c13UsedPorts[p] = true
+	return fmt.Sprintf("127.0.0.1:%d", p)
 }
 
 func c13UDP() string {
 	c13PortMu.Lock()
 	defer c13PortMu.Unlock()
-	return fmt.Sprintf("127.0.0.1:%d", c13UDPPort())
+	p := c13NextPort(c13ProbeUDP)
+	c13UsedPorts[p] = true
+	return fmt.Sprintf("127.0.0.1:%d", p)
 }
 
-// c13EvenUDPPair returns an even port p such that p and p+1 are free and not used by the case yet.
+// c13EvenUDPPair returns an even port p such that p and p+1 are free (RTP/RTCP).
 func c13EvenUDPPair() int {
 	c13PortMu.Lock()
 	defer c13PortMu.Unlock()
-	for {
-		p := vcFreeEvenUDPPair()
-		if !c13UsedUDP[p] && !c13UsedUDP[p+1] {
-			c13UsedUDP[p], c13UsedUDP[p+1] = true, true
-			return p
-		}
+	p := c13NextPort(func(p int) bool {
+		return p%2 == 0 && p+1 < c13PortHi && !c13UsedPorts[p+1] && c13ProbeUDP(p) && c13ProbeUDP(p+1)
+	})
+	c13UsedPorts[p], c13UsedPorts[p+1] = true, true
+	if c13PortCursor == p+1 {
+		c13PortCursor = p + 2
 	}
+	return p
 }
 
 // ---------------------------------------------------------------- base configuration
@@ -376,11 +415,11 @@ func c13HostPort(s string) (string, string) {
 // c13AltCount is how many alternatives Alt distinguishes for a field (upper bound; indices wrap).
 func c13AltCount(name string) int {
 	switch name {
-	case "logLevel", "rtspAuthMethods", "authInternalUsers":
+	case "logLevel", "rtspAuthMethods", "authInternalUsers", c13PathsField:
 		return 3
 	case "logDestinations", "authMethod", "rtspEncryption", "rtmpEncryption", "hlsVariant", "rtspTransports",
 		"webrtcLocalTCPAddress", "readTimeout", "writeTimeout", "writeQueueSize", "udpMaxPayloadSize", "udpReadBufferSize",
-		"rtspUDPReadBufferSize", c13PathsField:
+		"rtspUDPReadBufferSize":
 		return 2
 	}
 	if strings.HasSuffix(name, "AllowOrigins") || strings.HasSuffix(name, "TrustedProxies") || strings.HasSuffix(name, "Exclude") {
@@ -557,6 +596,25 @@ func c13PathsEdits(v c13BaseVariant) []c13PathsEdit {
 			},
 			Method: "POST", Route: "/v3/config/paths/add/c13extra", Body: map[string]any{"maxReaders": 3},
 		},
+		c13CleanerEdit(v),
+	}
+}
+
+// c13CleanerEdit flips whether any path has recordDeleteAfter != 0 (the record cleaner must disappear / appear).
+func c13CleanerEdit(v c13BaseVariant) c13PathsEdit {
+	if v.Cleaner {
+		return c13PathsEdit{
+			Desc:   "paths-=cam (the only path with recordDeleteAfter)",
+			Apply:  func(m map[string]any) { delete(m["paths"].(map[string]any), "cam") },
+			Method: "DELETE", Route: "/v3/config/paths/delete/cam",
+		}
+	}
+	return c13PathsEdit{
+		Desc: "paths+=c13keep{recordDeleteAfter:3h}",
+		Apply: func(m map[string]any) {
+			m["paths"].(map[string]any)["c13keep"] = map[string]any{"recordDeleteAfter": "3h"}
+		},
+		Method: "POST", Route: "/v3/config/paths/add/c13keep", Body: map[string]any{"recordDeleteAfter": "3h"},
 	}
 }
 
